@@ -111,6 +111,24 @@ fn check(template: &str, st: &[(Regex, &'static str)]) -> Option<String> {
     }
 }
 
+struct ShortWriter(Vec<u8>);
+impl std::io::Write for ShortWriter {
+    fn write(&mut self, buf: &[u8]) -> std::io::Result<usize> {
+        let n = buf.len().min(3);
+        self.0.extend_from_slice(&buf[..n]);
+        Ok(n)
+    }
+    fn flush(&mut self) -> std::io::Result<()> {
+        Ok(())
+    }
+}
+
+/// templates outside the exhaustive space: references with numbers around 2^32 and 2^64
+fn long_templates() -> Vec<&'static str> {
+    vec!["<\\4294967296>", "<\\9999999999>", "<$4294967296>", "<${4294967296}>", "<\\g<4294967296>>", "<\\18446744073709551615>", "<\\18446744073709551616>", "<${18446744073709551616}>",
+         "<\\4294967297x>", "<$1$4294967295>"]
+}
+
 fn check_inner(template: &str, st: &[(Regex, &'static str)]) -> Option<String> {
     for (re, text) in st.iter() {
         let caps = re.captures(text).unwrap().unwrap();
@@ -120,6 +138,12 @@ fn check_inner(template: &str, st: &[(Regex, &'static str)]) -> Option<String> {
             let got = ex.expansion(template, &caps);
             if got != want {
                 return Some(format!("{} expander, regex {:?}: expansion {:?}, documented syntax gives {:?}", if python { "python" } else { "default" }, re.as_str(), got, want));
+            }
+            // write_expansion into a sink that accepts at most 3 bytes per write() call (pipes and sockets do short writes): the
+            // whole expansion must still arrive
+            let mut sink = ShortWriter(Vec::new());
+            if ex.write_expansion(&mut sink, template, &caps).is_ok() && sink.0 != want.as_bytes() {
+                return Some(format!("write_expansion into a short-writing sink gives {:?}, expansion() gives {:?}", String::from_utf8_lossy(&sink.0), want));
             }
             let mut dst = String::from("<");
             ex.append_expansion(&mut dst, template, &caps);
@@ -162,6 +186,12 @@ fn check_inner(template: &str, st: &[(Regex, &'static str)]) -> Option<String> {
 impl Family for Expand {
     fn search(&self, budget: &mut Budget, _seed: u64) -> Option<(Value, String)> {
         let st = setups();
+        for t in long_templates() {
+            budget.evals += 1;
+            if let Some(d) = check(t, &st) {
+                return Some((json!({"template": t}), d));
+            }
+        }
         for len in 0..=6usize {
             let mut idx = vec![0usize; len];
             loop {
